@@ -312,6 +312,89 @@ def check_rest(v, prop):
     return f
 
 
+def check_c20(v):
+    """C20: the wasm module built from the current tree, called under Node via globalThis and via the JS
+    package's export object; every call validated by TLC against WasmTrace (marshalling layer + native Lib)."""
+    def f(r):
+        v.model_check(r, "wasm", "Wasm.tla", "Wasm_MC.cfg", workers=2)
+        v.model_check(r, "wasmneg", "Wasm.tla", "Wasm_Neg.cfg", workers=1, expect_violation="is violated")
+        binp = v.build_harness(r)
+        env = v.repo_go_env()
+        env["GOOS"], env["GOARCH"] = "js", "wasm"
+        gdir = os.path.join(r.dir, "wg")
+        pdir = os.path.join(r.dir, "wp")
+        os.makedirs(gdir)
+        rc, out = v.run(["go", "build", "-o", os.path.join(gdir, "otp.wasm"), "./wasm"], cwd=v.REPO, env=env, timeout=900)
+        if rc != 0:
+            raise v.Inconclusive("the wasm binding does not build:\n" + out[-2000:])
+        rc, goroot = v.run(["go", "env", "GOROOT"], cwd=v.REPO, env=v.repo_go_env(), timeout=60)
+        wexec = None
+        for cand in ("lib/wasm/wasm_exec.js", "misc/wasm/wasm_exec.js"):
+            pth = os.path.join(goroot.strip().splitlines()[-1], cand)
+            if os.path.exists(pth):
+                wexec = pth
+        if wexec is None:
+            raise v.Inconclusive("wasm_exec.js of the toolchain not found")
+        shutil.copy(wexec, gdir)
+        shutil.copytree(os.path.join(v.REPO, "otp-js", "src"), os.path.join(pdir, "src"))
+        os.makedirs(os.path.join(pdir, "lib"))
+        shutil.copy(os.path.join(gdir, "otp.wasm"), os.path.join(pdir, "lib", "otp.wasm"))
+
+        def drive(outdir, only=None):
+            os.makedirs(outdir, exist_ok=True)
+            cmd = [binp, "wasm", "-tier", r.tier, "-seed", str(r.seed), "-out", outdir, "-global-dir", gdir, "-package-dir", pdir,
+                   "-driver", os.path.join(v.HARNESS, "js", "driver.js")]
+            if only:
+                cmd += ["-only", only]
+            rc, out = v.run(cmd, cwd=r.dir, env=v.go_env(), timeout=3000)
+            if rc != 0:
+                raise v.Inconclusive("wasm driver failed (rc=%s):\n%s" % (rc, out[-2000:]))
+            return json.load(open(os.path.join(outdir, "gen.json")))
+        g = drive(os.path.join(r.dir, "wt"))
+
+        def brief(s):
+            def a(x):
+                if x["t"] == "string":
+                    return bytes(x["s"]).decode("utf8", "replace")[:40]
+                return x.get("lit") or x["t"]
+            return {"scn": s["scn"], "via": s["via"], "fn": s["fn"], "args": [a(x) for x in s["args"]],
+                    "ret": bytes(s["ret"]["s"]).decode("utf8", "replace")[:60] if s["ret"]["t"] == "string" else (s["ret"]["b"] if s["ret"]["t"] == "boolean" else s["ret"]["t"])}
+        r.samples = [brief(s) for s in g.get("samples", [])]
+        bad, nbad = v.validate_traces(r, g["files"], "WasmTrace.tla", "WasmTrace.cfg")
+        r.nontrivial = sum(r.classes.values())
+        if nbad.get("INC", 0):
+            raise v.Inconclusive("inconclusive calls: %s" % [b for b in bad if b["p"] == "INC"][:3])
+        mine = [b for b in bad if b["p"] == "C20"]
+        seen, reported, cache = set(), 0, {}
+        for b in mine:
+            if b["file"] not in cache:
+                cache[b["file"]] = v.read_events(b["file"])
+            ev = cache[b["file"]][b["id"]]
+            key = (ev["scn"], ev["via"])
+            if key in seen or reported >= 5:
+                continue
+            seen.add(key)
+            k = v.match_known("C20", ev, b["r"])
+            if k is not None:
+                if k["what"] not in [x["what"] for x in r.known]:
+                    r.known.append(k)
+                continue
+            g2 = drive(os.path.join(r.dir, "repro-%d" % reported), only=ev["scn"])
+            again = False
+            for i2, f2 in enumerate(g2["files"]):
+                rep, _, _ = v.validate_shard(r, 700 + reported * 10 + i2, f2, "WasmTrace.tla", "WasmTrace.cfg")
+                again = again or any(x["p"] == "C20" for x in rep["bad"])
+            if not again:
+                raise v.Inconclusive("a rejected call did not reproduce in a fresh Node process: %s" % ev["scn"])
+            d = os.path.join(v.ROOT, "replays", "C20")
+            os.makedirs(d, exist_ok=True)
+            path = os.path.join(d, hashlib.sha1((ev["scn"] + ev["via"] + b["r"]).encode()).hexdigest()[:12] + ".json")
+            json.dump({"property": "C20", "tier": r.tier, "seed": r.seed, "scn": [ev["scn"]], "reason": b["r"], "call": brief(ev)}, open(path, "w"), indent=1)
+            r.violations.append({"reason": b["r"], "replay": path, "event": brief(ev)})
+            reported += 1
+    return f
+
+
 def install(v):
     C = v.CHECKS
     R = v.RULES
@@ -332,6 +415,8 @@ def install(v):
     C["C19"] = check_rest(v, "C19")
     v.REPLAYS["C18"] = lambda r, rp: (check_rest(v, "C18")(r), bool(r.violations))[1]
     v.REPLAYS["C19"] = lambda r, rp: (check_rest(v, "C19")(r), bool(r.violations))[1]
+    C["C20"] = check_c20(v)
+    v.REPLAYS["C20"] = lambda r, rp: (check_c20(v)(r), bool(r.violations))[1]
     C["C09"] = check_c09(v)
     v.REPLAYS["C09"] = lambda r, rp: (check_c09(v)(r), bool(r.violations))[1]
     C["C11"] = check_c11(v)
